@@ -118,12 +118,15 @@ def run_case(job):
         rt = net["res_" + tbl].loc[lab]
         row = net[tbl].loc[lab]
         fcol, tcol = ("junction", "element") if tbl == "valve" else ("from_junction", "to_junction")
+        if tbl == "pump" and "v_mean_m_per_s" not in rt.index:
+            pass
         o = {"pf": obs(rt.p_from_bar, 1e6), "pt": obs(rt.p_to_bar, 1e6), "mf": obs(rt.mdot_from_kg_per_s, 1e6),
              "mt": obs(rt.mdot_to_kg_per_s, 1e6),
              "v": obs(rt.v_mean_m_per_s, 1e6) if "v_mean_m_per_s" in rt.index else obs(rt.mdot_from_kg_per_s / 10.0, 1e6),
              "vdot": obs(rt.vdot_m3_per_s, 1e9),
              "re": obs(rt.reynolds, 1e3) if "reynolds" in rt.index else [1, 0],
-             "lam": obs(rt["lambda"], 1e9) if "lambda" in rt.index else [1, 0]}
+             "lam": obs(rt["lambda"], 1e9) if "lambda" in rt.index else [1, 0],
+             "dp": obs(rt["deltap_bar"], 1e6) if "deltap_bar" in rt.index else [1, 0]}
         # reported flows as seen from the two junctions: mdot_from leaves `from`, mdot_to (negative of it) enters `to`
         inc[int(row[fcol])].append(-float(rt.mdot_from_kg_per_s))
         inc[int(row[tcol])].append(-float(rt.mdot_to_kg_per_s))
@@ -177,7 +180,9 @@ LABEL_SETS = {"dense": lambda n: list(range(n)), "gap": lambda n: [48, 3, 17, 51
 def variants_for(prop, s, rnd, tier):
     """the physically irrelevant choices each property quantifies over (all judged by the same exact prediction)"""
     n = len(normalise(s)["nodes"])
-    if prop in ("C01", "C02", "C03"):
+    if prop == "C03":
+        return [{}, {"idle_pump_first": True}]
+    if prop in ("C01", "C02"):
         return [{}]
     if prop == "C06":
         out = []
@@ -196,6 +201,20 @@ def variants_for(prop, s, rnd, tier):
         return [{"split": True}, {"loads": "split"}, {"loads": "negsink"}, {"extras": True},
                 {"split": True, "loads": "split", "extras": True, "blabels": "desc"}]
     raise ValueError(prop)
+
+
+GEN_PUMP = dict(GEN_BIG, Kinds="<- KindsPump", MaxNodes="= 5", MaxChords="= 1")
+
+
+def pump_scenarios(tier, seed):
+    sh = core.spec_hash("PPRefHyd", "GenHyd")
+    out = []
+    for steps, num in ((2, 60), (3, 120), (4, 120)):
+        n = num if tier == "quick" else num * 10
+        out += core.cached("hydpump%d_%d_%d_%s" % (steps, n, seed, sh),
+                           lambda: gen(dict(GEN_PUMP, MaxSteps="= %d" % steps), simulate="num=%d" % n, depth=steps + 2,
+                                       seed=seed * 11 + steps)[1])
+    return [r for r in out if any(n.get("kind") == "pump" for n in normalise(r["s"])["nodes"])]
 
 
 def run_check(prop, text_rule, nmax_quick=450, workers=None, level="model_checking", extra_cov=None, prior_violations=0):
@@ -222,6 +241,10 @@ def run_check(prop, text_rule, nmax_quick=450, workers=None, level="model_checki
             jobs.append({"id": "%s.%d.%d" % (prop, i, j), "s": r["s"], "variant": v, "family": prop})
     if tr == "quick" and len(jobs) > nmax_quick:
         jobs = rnd.sample(jobs, nmax_quick)
+    if prop in ("C03", "C02", "C06"):                 # scenarios with designed pumps (linear characteristic): always all of them
+        for i, r in enumerate(pump_scenarios(tr, sd)):
+            for j, v in enumerate(variants_for(prop, r["s"], rnd, tr)):
+                jobs.append({"id": "%s.p%d.%d" % (prop, i, j), "s": r["s"], "variant": v, "family": prop})
     cases = core.pmap(run_case, jobs, chunksize=6, workers=workers)
     by_id = {c["id"]: c for c in cases}
     res, fails = validate(cases)
